@@ -437,6 +437,13 @@ func runCLI(e *lib.Env, mg *merger, pool []Val, poolPairs [][2]Val, bnd []bpair,
 		for _, op := range unaryOps {
 			cases = append(cases, &cliCase{kind: "un", op: op, a: v, src: cliPrelude + "$a = " + la + ";\n$r = " + opSrc(op) + "$a;\n" + cliRender})
 		}
+		// nested unary operators, one script per value: gettype-level comparison on the real CLI
+		var cb strings.Builder
+		cb.WriteString(cliPrelude + "$a = " + la + ";\n")
+		for _, ch := range unaryChains {
+			cb.WriteString("$r = " + chainSrc(ch, "$a", false) + ";\necho \"\\nC03U|" + ch.Name + "|\", gettype($r), \"|\", (gettype($r) == \"string\" ? bin2hex($r) : json_encode($r)), \"|\\n\";\n")
+		}
+		cases = append(cases, &cliCase{kind: "chain", a: v, src: cb.String()})
 		var sb strings.Builder
 		sb.WriteString(cliPrelude + "$a = " + la + ";\n")
 		for _, tc := range truthCtxs {
@@ -527,6 +534,8 @@ func runCLI(e *lib.Env, mg *merger, pool []Val, poolPairs [][2]Val, bnd []bpair,
 			ws.judgeTruthCLI(c)
 		case "same":
 			ws.judgeSameCLI(c)
+		case "chain":
+			ws.judgeChainCLI(c)
 		}
 	}
 	st.Evaluations = ws.evals
@@ -776,5 +785,50 @@ func (ws *workerState) judgeSameCLI(c *cliCase) {
 			continue
 		}
 		ws.reflexive(v, f.Name, res[f.Name], func(op, what string) string { return c.src })
+	}
+}
+
+// judgeChainCLI: nested unary operators on the CLI against the composed reference. An uncaught
+// error or a crash ends the script; the chains after it are simply not observed.
+func (ws *workerState) judgeChainCLI(c *cliCase) {
+	v := c.a
+	if crash, _ := lib.GoCrash(c.res); crash {
+		o, _ := cliOutcome(c.res, Exp{})
+		ws.count(o)
+		what := fmt.Sprintf("a nested unary operator on %s crashes the CLI: %s at %s", v, short(o.Msg, 160), o.Site)
+		ws.viol("panic@"+o.Site+"/"+normPanic(o.Msg), what, c.src)
+		return
+	}
+	got := map[string]Val{}
+	for _, l := range strings.Split(c.res.Stdout, "\n") {
+		f := strings.Split(l, "|")
+		if len(f) < 4 || f[0] != "C03U" {
+			continue
+		}
+		if val, ok := cliValue(f[2], f[3], Exp{}); ok {
+			got[f[1]] = val
+		}
+	}
+	for _, ch := range unaryChains {
+		val, ok := got[ch.Name]
+		if !ok {
+			continue
+		}
+		o := Outcome{T: "value", V: val}
+		ws.count(o)
+		exp := refUnaryChain(ch, v)
+		if !exp.Def {
+			continue
+		}
+		if !exp.KindOnly {
+			ws.nontriv++
+		}
+		if exp.V.K == "float" && val.K == "float" && math.IsNaN(val.Fl()) && (math.IsNaN(exp.V.Fl()) || math.IsInf(exp.V.Fl(), 0)) {
+			continue // json_encode cannot render non-finite floats
+		}
+		if sym := symptom(exp, o); sym != "" {
+			what := fmt.Sprintf("%s gives %s on the CLI, the reference gives %s; operand class %s", chainSrc(ch, v.String(), false), o, expString(exp), v.Sub())
+			ws.viol("un/"+ch.Name+"/"+v.Kind()+"/"+sym+"/form=nested", what, c.src)
+		}
 	}
 }
